@@ -363,14 +363,20 @@ type page struct {
 	Sent     []*cookie
 }
 
-func (b *browser) get(target string, extra ...*cookie) (*page, error) {
+func (b *browser) get(target string) (*page, error) { return b.getWith(target, nil) }
+
+// getWith: only sends the given cookies when only != nil (a tampered user agent)
+func (b *browser) getWith(target string, only []*cookie) (*page, error) {
 	u, err := url.Parse(target)
 	if err != nil {
 		return nil, err
 	}
 	req, _ := http.NewRequest("GET", target, nil)
 	req.Header.Set("Accept", "text/html")
-	sent := append(b.cookiesFor(u), extra...)
+	sent := b.cookiesFor(u)
+	if only != nil {
+		sent = only
+	}
 	for _, c := range sent {
 		req.AddCookie(&http.Cookie{Name: c.Name, Value: c.Value})
 	}
